@@ -19,6 +19,18 @@ def getBatchSize (b : BatchArg) (n : Nat) : Nat :=
   | .full => n
   | .size k => k
 
+/-- the fitting procedures that accept a batch size -/
+inductive Proc where
+  | gaussian | poisson | excitation | minvar
+  deriving Repr, DecidableEq
+
+/-- batch size actually used by a procedure: the excitation model always solves row by row (its
+    max-objective is not separable across samples) -/
+def effectiveBatch (p : Proc) (b : BatchArg) (n : Nat) : Nat :=
+  match p with
+  | .excitation => 1
+  | _ => getBatchSize b n
+
 /-- one solve of the batched loop and where its solution is written: rows `start … stop-1` of `X`
     receive blocks `0 … stop-start-1` of the stacked solution -/
 structure Write where
